@@ -105,12 +105,21 @@ func srcName(v ssa.Value, depth int) string {
 func validAxioms(bc *boundsCtx, f *factSet, ins ssa.Instruction) {
 	// Index(s, a) and LastIndex(s, b) of two different constant bytes cannot coincide.
 	var idxCalls []*ssa.Call
+	needle := func(call *ssa.Call) (string, bool) {
+		if s, ok := constString(call.Call.Args[1]); ok && len(s) == 1 {
+			return s, true
+		}
+		if k, ok := constInt(call.Call.Args[1]); ok && k >= 0 && k < 128 {
+			return string(rune(k)), true
+		}
+		return "", false
+	}
 	for _, b := range bc.fn.Blocks {
 		for _, i := range b.Instrs {
 			if call, ok := i.(*ssa.Call); ok {
 				switch calleeName(&call.Call) {
-				case "strings.Index", "strings.LastIndex":
-					if s, ok := constString(call.Call.Args[1]); ok && len(s) == 1 {
+				case "strings.Index", "strings.LastIndex", "strings.IndexByte", "strings.LastIndexByte":
+					if _, ok := needle(call); ok {
 						idxCalls = append(idxCalls, call)
 					}
 				}
@@ -120,8 +129,8 @@ func validAxioms(bc *boundsCtx, f *factSet, ins ssa.Instruction) {
 	for i := 0; i < len(idxCalls); i++ {
 		for j := i + 1; j < len(idxCalls); j++ {
 			a, b := idxCalls[i], idxCalls[j]
-			sa, _ := constString(a.Call.Args[1])
-			sb, _ := constString(b.Call.Args[1])
+			sa, _ := needle(a)
+			sb, _ := needle(b)
 			if sa != sb && bc.key(a.Call.Args[0]) == bc.key(b.Call.Args[0]) {
 				f.nes = append(f.nes, neq{bc.key(a), bc.key(b), 0})
 			}
